@@ -1224,6 +1224,14 @@ private:
                            ts, (read_result.new_capacity / 1024),
                            (read_result.previous_capacity / 1024), thread_context->thread_id()));
       }
+
+      if (!read_result.read_pos)
+      {
+        // We switched to a node that is empty as well, e.g. a node published by shrink() that the
+        // producer left again because the next message did not fit. Messages can still be pending
+        // in a later node, keep following the chain, otherwise they would be missed by this pass
+        return _read_unbounded_frontend_queue(frontend_queue, thread_context);
+      }
     }
 
     return read_result.read_pos;
